@@ -228,6 +228,7 @@ func (l *PartitionLog) RestoreFromS3(ctx context.Context) (int64, error) {
 	if last >= l.nextOffset {
 		l.nextOffset = last + 1
 	}
+	verifTrace(ctx, "Restore", l, last, 0)
 	l.mu.Unlock()
 
 	return last, nil
@@ -235,6 +236,7 @@ func (l *PartitionLog) RestoreFromS3(ctx context.Context) (int64, error) {
 
 // AppendBatch writes a record batch to the log, updating offsets and flushing as needed.
 func (l *PartitionLog) AppendBatch(ctx context.Context, batch RecordBatch) (*AppendResult, error) {
+	verifGate(ctx, "append", l)
 	l.mu.Lock()
 	baseOffset := l.nextOffset
 	PatchRecordBatchBaseOffset(&batch, baseOffset)
@@ -255,6 +257,7 @@ func (l *PartitionLog) AppendBatch(ctx context.Context, batch RecordBatch) (*App
 			return nil, err
 		}
 	}
+	verifTrace(ctx, "Append", l, baseOffset, boolInt(artifact != nil))
 	l.mu.Unlock()
 
 	if artifact != nil {
@@ -262,6 +265,7 @@ func (l *PartitionLog) AppendBatch(ctx context.Context, batch RecordBatch) (*App
 			return nil, err
 		}
 		if l.onFlush != nil {
+			verifGate(ctx, "publish", l)
 			l.onFlush(ctx, artifact)
 		}
 	}
@@ -299,7 +303,11 @@ func (l *PartitionLog) EarliestOffset() int64 {
 // If another flush is already in progress on this partition, Flush waits for
 // it to complete and then flushes any data that accumulated in the meantime.
 func (l *PartitionLog) Flush(ctx context.Context) error {
+	verifGate(ctx, "flush", l)
 	l.mu.Lock()
+	if l.flushing {
+		verifTrace(ctx, "FlushWait", l, 0, 0)
+	}
 	for l.flushing {
 		if ctx.Err() != nil {
 			l.mu.Unlock()
@@ -308,6 +316,7 @@ func (l *PartitionLog) Flush(ctx context.Context) error {
 		l.flushCond.Wait()
 	}
 	artifact, err := l.prepareFlush()
+	verifTrace(ctx, "FlushPrepare", l, boolInt(artifact == nil), 0)
 	l.mu.Unlock()
 	if err != nil {
 		return err
@@ -321,14 +330,17 @@ func (l *PartitionLog) Flush(ctx context.Context) error {
 	if l.onFlush != nil {
 		target := artifact
 		if target == nil {
+			verifGate(ctx, "pubread", l)
 			l.mu.Lock()
 			current := l.nextOffset - 1
+			verifTrace(ctx, "PubRead", l, current, 0)
 			l.mu.Unlock()
 			if current >= 0 {
 				target = &SegmentArtifact{LastOffset: current}
 			}
 		}
 		if target != nil {
+			verifGate(ctx, "publish", l)
 			l.onFlush(ctx, target)
 		}
 	}
@@ -392,13 +404,16 @@ func (l *PartitionLog) uploadFlush(ctx context.Context, artifact *SegmentArtifac
 		return err
 	})
 	if err := g.Wait(); err != nil {
+		verifGate(ctx, "updone", l)
 		l.mu.Lock()
 		l.flushing = false
 		l.flushingBatches = nil
 		l.flushCond.Broadcast()
+		verifTrace(ctx, "FlushFail", l, artifact.BaseOffset, artifact.LastOffset)
 		l.mu.Unlock()
 		return err
 	}
+	verifGate(ctx, "updone", l)
 
 	if l.cache != nil && l.cfg.CacheEnabled {
 		l.cache.SetSegment(l.cacheTopicKey(), l.partition, artifact.BaseOffset, artifact.SegmentBytes)
@@ -418,6 +433,7 @@ func (l *PartitionLog) uploadFlush(ctx context.Context, artifact *SegmentArtifac
 	l.flushingBatches = nil
 	l.flushCond.Broadcast()
 	lastSegIdx := len(l.segments) - 1
+	verifTrace(ctx, "FlushCommit", l, artifact.BaseOffset, artifact.LastOffset)
 	l.mu.Unlock()
 
 	l.startPrefetch(ctx, lastSegIdx)
